@@ -26,6 +26,11 @@ def finding_key(f, rec_panic=None):
     return '%s:%s:step%s' % (f['template'], f['kind'], f['step'])
 
 def select_templates(prop, tier):
+    ts = _select_templates(prop, tier)
+    only = os.environ.get('VERIF_ONLY')       # development aid: restrict a run to some templates (never set by the registered commands)
+    if only: ts = [t for t in ts if t.name in only.split(',') or t.name.split('~')[0] in only.split(',')]
+    return ts
+def _select_templates(prop, tier):
     if prop == 'C07': return list(catalog.EXPLAIN) if tier == 'quick' else catalog.EXPLAIN + catalog.EXPLAIN_THOROUGH
     if prop == 'C03': return list(catalog.MODEL) if tier == 'quick' else catalog.MODEL + catalog.MODEL_THOROUGH
     ts = catalog.QUICK if tier == 'quick' else catalog.QUICK + catalog.THOROUGH
